@@ -30,6 +30,7 @@ struct ldb_rfile_s;
 typedef struct ldb_reporter_s {
   const char *fname; /* db_impl.c */
   int *status; /* db_impl.c, version_set.c, t-log.c */
+  int *io_status; /* db_impl.c (only read by its own callback) */
   struct ldb_logger_s *info_log; /* db_impl.c, repair.c */
   uint64_t lognum; /* repair.c */
   FILE *dst; /* dumpfile.c */
